@@ -996,6 +996,13 @@ func c07r4(c *Ctx) {
 			if !after[rc.Ret] || len(rc.Results) != 2 {
 				continue
 			}
+			// a return behind contradictory facts (`if false { … return }`) never executes: the
+			// normaliser's tail duplication copies the statements that follow a merged boolean helper
+			// once per helper return, and the copy made for a `return false` keeps the reuse branch as
+			// dead code
+			if pfDeadByFacts(rc.Facts) {
+				continue
+			}
 			// the reuse test may be materialised in an extracted boolean helper
 			rc.Facts = p.xImplied(rc.Facts)
 			errRes := rc.Results[1]
